@@ -740,3 +740,308 @@ def observe(scn):
                 'probe_after': read_hex(os.path.join(run_root, probe['path'])) if probe else None}
     finally:
         shutil.rmtree(base, ignore_errors=True)
+
+
+# --------------------------------------------------------------------------
+# the fault space of the final rename
+# --------------------------------------------------------------------------
+# The rename that ends an in-place rewrite is made to fail with a given errno class; from that moment on EVERY call
+# of a public function of `os` / `shutil`, every `open` and every write/flush/close of a file opened for writing
+# under the scratch root is (a) recorded, (b) followed by a reading of the source path, (c) itself a fault point
+# (raise ENOSPC / die before it / do half of it then raise or die). Runs in a forked child; records go through a pipe.
+
+RENAME_NAMES = ('replace', 'rename')          # os functions that are "the final rename"
+DATA_CALLS = ('os.sendfile', 'os.copy_file_range', 'os.write', 'os.writev', 'os.pwrite', 'os.splice', 'file.write',
+              'file.writelines')
+_RF_SKIP = {'fork', 'forkpty', 'waitpid', 'wait', 'wait3', 'wait4', 'kill', 'abort', 'execv', 'execve', 'execl', 'execle',
+            'execlp', 'execlpe', 'execvp', 'execvpe', 'register_at_fork', 'get_terminal_size'}
+
+
+class _FileProxy:
+    """a file opened for writing after the refused rename: its write / flush / close are fault points"""
+
+    def __init__(self, tr, real):
+        object.__setattr__(self, '_tr', tr)
+        object.__setattr__(self, '_real', real)
+
+    def __enter__(self):
+        self._real.__enter__()
+        return self
+
+    def __exit__(self, et, ev, tb):
+        self._tr.call('file.close', self._real.close, (), {})
+        return False
+
+    def write(self, data):
+        return self._tr.call('file.write', self._real.write, (data,), {}, flush=self._real.flush)
+
+    def writelines(self, lines):
+        return self._tr.call('file.writelines', self._real.writelines, (list(lines),), {}, flush=self._real.flush)
+
+    def flush(self):
+        return self._tr.call('file.flush', self._real.flush, (), {})
+
+    def close(self):
+        return self._tr.call('file.close', self._real.close, (), {})
+
+    def __iter__(self):
+        return iter(self._real)
+
+    def __getattr__(self, a):
+        return getattr(self._real, a)
+
+
+class RenameFaultTracer:
+    def __init__(self, root, rf, wfd):
+        import builtins
+        self.root = os.path.realpath(root)
+        self.rf = rf
+        self.wfd = wfd
+        self.active = False
+        self.fired = False
+        self.ncalls = 0
+        self.probe = None
+        self.real_write = os.write
+        self.real_open = builtins.open
+        self.real_fstat = os.fstat
+        self.real_exit = os._exit
+        self.undo = []
+
+    def emit(self, rec):
+        self.real_write(self.wfd, (json.dumps(rec) + '\n').encode())
+
+    def snap(self):
+        if self.probe is None:
+            return None
+        try:
+            with self.real_open(self.probe, 'rb') as f:
+                return f.read().hex()
+        except OSError:
+            return None
+
+    def inside(self, p):
+        try:
+            return not os.path.relpath(os.path.realpath(os.fspath(p)), self.root).startswith('..')
+        except Exception:
+            return False
+
+    # ---- one traced call
+    def call(self, name, real, a, k, flush=None):
+        if not self.active:
+            return real(*a, **k)
+        idx = self.ncalls
+        self.ncalls += 1
+        sec = self.rf.get('second')
+        if sec and sec['k'] == idx:
+            mode = sec['mode']
+            self.active = False
+            try:
+                if mode.startswith('partial'):
+                    self.partial(name, real, a, k, flush)
+                if mode == 'kill-after':
+                    real(*a, **k)
+                    if flush:
+                        flush()
+            except Exception as e:  # noqa: BLE001 - the partial operation failed by itself
+                self.emit({'note': f'partial {name} failed by itself: {type(e).__name__}'})
+            self.emit({'second': mode, 'at': idx, 'call': name, 'src': self.snap()})
+            if 'kill' in mode:
+                self.real_exit(KILL_EXIT)
+            self.active = True
+            import errno as E
+            raise OSError(E.ENOSPC, 'injected: No space left on device')
+        try:
+            r = real(*a, **k)
+        except BaseException as e:  # noqa: BLE001
+            self.active, was = False, self.active
+            self.emit({'call': name, 'i': idx, 'failed': type(e).__name__, 'src': self.snap()})
+            self.active = was
+            raise
+        self.active, was = False, self.active
+        self.emit({'call': name, 'i': idx, 'src': self.snap()})
+        self.active = was
+        return r
+
+    def partial(self, name, real, a, k, flush):
+        """do about half of a data-moving call"""
+        if name in ('os.sendfile', 'os.copy_file_range', 'os.splice'):
+            size = self.real_fstat(a[1] if name == 'os.sendfile' else a[0]).st_size
+            half = max(1, size // 2)
+            if name == 'os.sendfile':
+                real(a[0], a[1], a[2] if len(a) > 2 else k.get('offset', 0), half)
+            else:
+                real(a[0], a[1], half)
+        elif name in ('file.write', 'os.write', 'os.pwrite'):
+            data = a[0] if name == 'file.write' else a[1]
+            half = data[:max(1, len(data) // 2)]
+            if name == 'file.write':
+                real(half)
+            else:
+                real(a[0], half, *a[2:])
+        elif name == 'file.writelines':
+            real(a[0][:max(1, len(a[0]) // 2)])
+        if flush:
+            flush()
+
+    # ---- install
+    def install(self):
+        import builtins
+        import types
+        import errno as E
+        tr = self
+        rf = self.rf
+
+        def patch(mod, name, val):
+            self.undo.append((mod, name, getattr(mod, name)))
+            setattr(mod, name, val)
+
+        def wrap(qual, real):
+            def w(*a, **k):
+                return tr.call(qual, real, a, k)
+            w.__name__ = getattr(real, '__name__', qual)
+            w.__wrapped__ = real
+            return w
+
+        def wrap_rename(qual, real):
+            def w(src, dst, *a, **k):
+                if tr.fired or not tr.inside(dst):
+                    return tr.call(qual, real, (src, dst) + a, k)
+                tr.fired = True
+                tr.probe = os.path.join(os.path.realpath(os.path.dirname(os.fspath(dst))), os.path.basename(os.fspath(dst)))
+                tr.emit({'fault': rf.get('errno'), 'at': qual, 'dst': os.path.relpath(tr.probe, tr.root), 'src': tr.snap()})
+                if rf.get('errno'):
+                    n = getattr(E, rf['errno'])
+                    exc = OSError(n, os.strerror(n), os.fspath(src), None, os.fspath(dst))
+                else:
+                    exc = OSError('injected fault at the rename')
+                tr.active = True
+                raise exc
+            return w
+        for mod, pre in ((os, 'os.'), (shutil, 'shutil.')):
+            for name, v in list(vars(mod).items()):
+                if name.startswith('_') or name in _RF_SKIP or not isinstance(v, (types.FunctionType, types.BuiltinFunctionType)):
+                    continue
+                if mod is os and name in RENAME_NAMES:
+                    patch(mod, name, wrap_rename(pre + name, v))
+                else:
+                    patch(mod, name, wrap(pre + name, v))
+        real_open = self.real_open
+
+        def xopen(file, mode='r', *a, **k):
+            if not tr.active:
+                return real_open(file, mode, *a, **k)
+            f = tr.call('open', real_open, (file, mode) + a, k)
+            if isinstance(file, (str, bytes, os.PathLike)) and any(c in mode for c in 'wax+') and tr.inside(file):
+                return _FileProxy(tr, f)
+            return f
+        patch(builtins, 'open', xopen)
+        patch(io, 'open', xopen)
+
+    def uninstall(self):
+        self.active = False
+        for mod, name, old in reversed(self.undo):
+            setattr(mod, name, old)
+        self.undo = []
+
+
+def _rename_fault_child(scn, root, rf, wfd):
+    from pypyr.context import Context
+    mod = importlib.import_module(STEPS[scn['step']][0])
+    ctx = Context(build_context(scn, root, Bomb(), True))
+    if needs_cwd(scn):
+        os.chdir(os.path.join(root, scn.get('cwd') or ''))
+    dn = os.open(os.devnull, os.O_WRONLY)
+    os.dup2(dn, 1)
+    os.dup2(dn, 2)
+    tr = RenameFaultTracer(root, rf, wfd)
+    tr.install()
+    try:
+        try:
+            mod.run_step(ctx)
+            out = {'end': 'ok'}
+        except Exception as e:  # noqa: BLE001
+            out = {'end': 'raised', 'exc': type(e).__name__, 'errno': getattr(e, 'errno', None), 'msg': str(e)[:120]}
+        except BaseException as e:  # noqa: BLE001
+            out = {'end': 'raised', 'exc': type(e).__name__, 'base': True}
+    finally:
+        tr.uninstall()
+    out['fired'] = tr.fired
+    tr.emit(out)
+
+
+def observe_rename_fault(scn, timeout=20):
+    """scn['rf'] = {'errno': name | None, 'second': None | {'k': i, 'mode': raise|kill|kill-after|partial-raise|partial-kill}}.
+    Reference run (fault-free) and the faulted run on identical scratch directories; the faulted run in a forked
+    child. Returns the records the child sent and the directory before / after."""
+    import select
+    import time
+    rf = scn['rf']
+    base = tempfile.mkdtemp(prefix='verif-c15rf-')
+    try:
+        ref_root, run_root = os.path.join(base, 'ref'), os.path.join(base, 'run')
+        os.makedirs(ref_root)
+        os.makedirs(run_root)
+        materialise(scn, ref_root, plant=False)
+        materialise(scn, run_root, plant=False)
+        before = audit(run_root)
+        names_before = listing(run_root)
+        inodes_before = {rel: os.lstat(os.path.join(run_root, rel)).st_ino for rel in before}
+        o, _rec = run_step(scn, ref_root, inert=True)
+        ref_after = audit(ref_root)
+        r, w = os.pipe()
+        pid = os.fork()
+        if pid == 0:
+            code = 3
+            try:
+                os.close(r)
+                _rename_fault_child(scn, run_root, rf, w)
+                code = 0
+            except BaseException:  # noqa: BLE001
+                code = 3
+            finally:
+                os._exit(code)
+        os.close(w)
+        buf, deadline, timed_out = b'', time.time() + timeout, False
+        while True:
+            left = deadline - time.time()
+            if left <= 0:
+                timed_out = True
+                break
+            ready, _, _ = select.select([r], [], [], left)
+            if not ready:
+                timed_out = True
+                break
+            b = os.read(r, 65536)
+            if not b:
+                break
+            buf += b
+        os.close(r)
+        if timed_out:
+            try:
+                os.kill(pid, 9)
+            except OSError:
+                pass
+        _, status = os.waitpid(pid, 0)
+        code = os.waitstatus_to_exitcode(status)
+        recs = []
+        for ln in buf.decode('utf-8', 'replace').splitlines():
+            try:
+                recs.append(json.loads(ln))
+            except ValueError:
+                pass
+        after = audit(run_root)
+        inodes_after = {rel: os.lstat(os.path.join(run_root, rel)).st_ino for rel in after}
+        end = next((x for x in recs if 'end' in x), None)
+        if timed_out:
+            outcome = {'end': 'timeout'}
+        elif code == KILL_EXIT:
+            outcome = {'end': 'killed'}
+        elif code == 0 and end:
+            outcome = end
+        else:
+            outcome = {'end': 'child-crashed', 'code': code}
+        return {'ref_ok': o['end'] == 'ok', 'ref_after': ref_after, 'before': before, 'after': after,
+                'names_before': names_before, 'names_after': listing(run_root), 'outcome': outcome, 'records': recs,
+                'same_inode': {rel: inodes_before[rel] == inodes_after.get(rel) for rel in before}}
+    finally:
+        shutil.rmtree(base, ignore_errors=True)
